@@ -33,6 +33,8 @@ type Profile struct {
 	DupSigners  bool
 	GovKinds    []string // which modules' parameters governance changes (default: all four)
 	PCheck      int      // percent of txs that are submitted to CheckTx only (mempool admission)
+	GasSweep    bool     // some txs get a gas limit that runs out at an ante / message boundary
+	MultiPct    int      // percent of txs with several messages (default 10)
 }
 
 // rapid's integer generators are deliberately biased towards small values and
@@ -433,7 +435,11 @@ func GenScenario(t *rapid.T, p *Profile) *Scenario {
 		for i := 0; i < ntx; i++ {
 			tx := Tx{}
 			nops := 1
-			if p.MaxOps > 1 && oneIn(t, 10, "multi") {
+			multi := p.MultiPct
+			if multi == 0 {
+				multi = 10
+			}
+			if p.MaxOps > 1 && pct(t, multi, "multi") {
 				nops = uniRange(t, 2, p.MaxOps, "nOps")
 			}
 			for j := 0; j < nops; j++ {
@@ -447,6 +453,9 @@ func GenScenario(t *rapid.T, p *Profile) *Scenario {
 				tx.Fee.Extra = pick(t, []string{"1", "5", "1000"}, "feeExtra")
 			} else if p.PCheck == 0 {
 				tx.Fee.Mode = pick(t, feeModes, "feeMode")
+			}
+			if p.GasSweep && oneIn(t, 8, "lowGas") {
+				tx.Gas = uint64(pick(t, []int{1, 1000, 20000, 40000, 55000, 60000, 70000, 80000, 90000, 100000, 120000, 150000}, "gas"))
 			}
 			if pct(t, p.PFault, "fault") {
 				tx.Fault = uniRange(t, 1, 4, "faultKind")
